@@ -156,7 +156,11 @@ func marshalPKCS8SM9SignPrivateKey(k *sm9.SignPrivateKey) ([]byte, error) {
 	if err != nil {
 		return nil, err
 	}
-	pubasn1, err := k.MasterPublic().MarshalASN1()
+	masterPub := k.MasterPublic()
+	if masterPub == nil {
+		return nil, errors.New("x509: sm9 sign private key has no master public key")
+	}
+	pubasn1, err := masterPub.MarshalASN1()
 	if err != nil {
 		return nil, err
 	}
@@ -180,7 +184,11 @@ func marshalPKCS8SM9EncPrivateKey(k *sm9.EncryptPrivateKey) ([]byte, error) {
 	if err != nil {
 		return nil, err
 	}
-	pubasn1, err := k.MasterPublic().MarshalASN1()
+	masterPub := k.MasterPublic()
+	if masterPub == nil {
+		return nil, errors.New("x509: sm9 encrypt private key has no master public key")
+	}
+	pubasn1, err := masterPub.MarshalASN1()
 	if err != nil {
 		return nil, err
 	}
